@@ -266,3 +266,51 @@ theorem read_write (m : MDesc) (hwf : WellFormed m) (hk : Hk m) : read (write m)
   simp only [hdrop, hnodes, assemble_model]
 
 end MxModel.Serial
+
+namespace MxModel.Serial
+open MxModel.PathCodec
+
+/-! ## which files the writer writes -/
+
+mutual
+theorem initPaths_writeSpace (model : Name) (parent : Path) :
+    ∀ s : SpaceD, (writeSpace model parent s).initPaths (parent ++ [s.name]) = spacePaths parent s
+  | .mk i cs => by
+    simp [writeSpace, Dir.initPaths, spacePaths, SpaceD.name, SpaceD.info,
+      initPathsL_writeSpaces model (parent ++ [i.name]) cs]
+theorem initPathsL_writeSpaces (model : Name) (parent : Path) :
+    ∀ cs : List SpaceD, Dir.initPathsL parent (writeSpaces model parent cs) = spacesPaths parent cs
+  | [] => rfl
+  | s :: ss => by
+    simp [writeSpaces, Dir.initPathsL, spacesPaths, writeSpace_name, initPaths_writeSpace model parent s,
+      initPathsL_writeSpaces model parent ss]
+end
+
+/-- the names of the `_data` files of a space: the cells that hold input values, and `_dynamic_inputs` if
+an ItemSpace holds one -/
+def dataNames (i : SpaceInfo) : List Name :=
+  ((i.cells.filter (fun c => !c.inputs.isEmpty)).map (·.name)) ++
+    (if i.dynInputs.isEmpty then [] else [fDynInputs])
+
+theorem spaceData_names (model : Name) (path : Path) (i : SpaceInfo) :
+    (spaceData model path i).map (·.1) = dataNames i := by
+  unfold spaceData dataNames
+  by_cases h : i.dynInputs.isEmpty <;> simp [h, List.map_map, Function.comp_def]
+
+mutual
+theorem dataPaths_writeSpace (model : Name) (parent : Path) :
+    ∀ s : SpaceD, (writeSpace model parent s).dataPaths (parent ++ [s.name]) =
+      (infosOf parent s).flatMap (fun e => (dataNames e.2).map (fun n => (own e, n)))
+  | .mk i cs => by
+    simp [writeSpace, Dir.dataPaths, infosOf, SpaceD.name, SpaceD.info, own, ← spaceData_names model (parent ++ [i.name]) i,
+      List.map_map, Function.comp_def, dataPathsL_writeSpaces model (parent ++ [i.name]) cs]
+theorem dataPathsL_writeSpaces (model : Name) (parent : Path) :
+    ∀ cs : List SpaceD, Dir.dataPathsL parent (writeSpaces model parent cs) =
+      (infosOfL parent cs).flatMap (fun e => (dataNames e.2).map (fun n => (own e, n)))
+  | [] => rfl
+  | s :: ss => by
+    simp [writeSpaces, Dir.dataPathsL, infosOfL, writeSpace_name, dataPaths_writeSpace model parent s,
+      dataPathsL_writeSpaces model parent ss]
+end
+
+end MxModel.Serial
